@@ -110,11 +110,7 @@ func (d *decoder) decodeArray(v value, elemType reflect.Type, decodeElem decodeF
 	if n := d.readInt32(); n < 0 {
 		v.setArray(array{})
 	} else {
-		a := makeArray(elemType, int(n))
-		for i := 0; i < int(n) && d.remain > 0; i++ {
-			decodeElem(d, a.index(i))
-		}
-		v.setArray(a)
+		d.decodeArrayOf(v, elemType, uint64(n), decodeElem)
 	}
 }
 
@@ -122,12 +118,23 @@ func (d *decoder) decodeCompactArray(v value, elemType reflect.Type, decodeElem 
 	if n := d.readUnsignedVarInt(); n < 1 {
 		v.setArray(array{})
 	} else {
-		a := makeArray(elemType, int(n-1))
-		for i := 0; i < int(n-1) && d.remain > 0; i++ {
-			decodeElem(d, a.index(i))
-		}
-		v.setArray(a)
+		d.decodeArrayOf(v, elemType, n-1, decodeElem)
 	}
+}
+
+func (d *decoder) decodeArrayOf(v value, elemType reflect.Type, n uint64, decodeElem decodeFunc) {
+	// Every element occupies at least one byte of the frame, an array longer
+	// than the remaining bytes cannot be valid; don't allocate memory for it.
+	if n > uint64(d.remain) {
+		d.setError(errLengthOutOfRange)
+		v.setArray(array{})
+		return
+	}
+	a := makeArray(elemType, int(n))
+	for i := 0; i < int(n) && d.remain > 0; i++ {
+		decodeElem(d, a.index(i))
+	}
+	v.setArray(a)
 }
 
 func (d *decoder) discardAll() {
@@ -148,7 +155,25 @@ func (d *decoder) discard(n int) {
 	d.setError(err)
 }
 
+// maxEagerRead is the largest value for which read allocates the memory up
+// front, larger values are read in chunks so the memory being allocated is
+// proportional to the bytes that were actually received, and not to a length
+// announced by the remote end.
+const maxEagerRead = 64 * 1024
+
+var errLengthOutOfRange = fmt.Errorf("length prefix out of the bounds of the message: %w", io.ErrUnexpectedEOF)
+
 func (d *decoder) read(n int) []byte {
+	if n < 0 || n > d.remain {
+		d.setError(errLengthOutOfRange)
+		return nil
+	}
+	if n > maxEagerRead {
+		buf := bytes.Buffer{}
+		_, err := io.CopyN(&buf, d, int64(n))
+		d.setError(err)
+		return buf.Bytes()
+	}
 	b := make([]byte, n)
 	n, err := io.ReadFull(d, b)
 	b = b[:n]
@@ -427,9 +452,9 @@ func structDecodeFuncOf(typ reflect.Type, version int16, flexible bool) decodeFu
 		if flexible {
 			// See https://cwiki.apache.org/confluence/display/KAFKA/KIP-482%3A+The+Kafka+Protocol+should+Support+Optional+Tagged+Fields
 			// for details of tag buffers in "flexible" messages.
-			n := int(d.readUnsignedVarInt())
+			n := d.readUnsignedVarInt()
 
-			for i := 0; i < n; i++ {
+			for i := uint64(0); i < n && !d.done(); i++ {
 				tagID := int(d.readUnsignedVarInt())
 				size := int(d.readUnsignedVarInt())
 
